@@ -481,7 +481,13 @@ func native(outPath string) {
 			add("toRune", "toRune", wr, fmt.Sprint(res, err))
 		}
 	}
-	for _, r := range []int64{65, 233, 26085, 0} {
+	// every class of rune: ASCII, Latin-1, the edges of the planes, surrogates, beyond the last code point, negative (also as the low 32 bits of an int64)
+	runes := []int64{65, 233, 26085, 0, -1, -2, -65, -(1 << 31), 1<<31 - 1, 0x7f, 0x80, 0xff, 0x100, 0x7ff, 0x800, 0xd7ff, 0xd800, 0xdfff, 0xe000, 0xfffd, 0xffff, 0x10000, 0x10ffff, 0x110000,
+		1 << 31, 1<<32 - 1, 1 << 32, 1<<32 + 65, -(1 << 40), 1<<63 - 1, -(1 << 63)}
+	for r := int64(1); r < 0x300; r += 7 {
+		runes = append(runes, r)
+	}
+	for _, r := range runes {
 		sum.Cases++
 		e := newEnv()
 		e.Define("r", r)
